@@ -15,9 +15,10 @@ mut("C16", "c16-fastreject-before-global", IS,
 mut("C16", "c16-index-only-first-token", IS, "for _, code := range marker.Codes {\n\t\ts.CodeIndex[code] = append(s.CodeIndex[code], index)\n\t}", "for _, code := range marker.Codes[:1] {\n\t\ts.CodeIndex[code] = append(s.CodeIndex[code], index)\n\t}")
 mut("C16", "c16-index-keeps-last-marker-only", IS, "s.CodeIndex[code] = append(s.CodeIndex[code], index)", "s.CodeIndex[code] = []int{index}")
 mut("C16", "c16-module-ignores-replaced-not-appended", IS, "s.moduleIgnores = append(s.moduleIgnores, codes...)", "s.moduleIgnores = codes")
-mut("C16", "c16-lazy-stat-write-in-contains-race", IS, "func (s *IgnoreSet) Contains(code string, pos token.Pos) bool {\n\t// Nil safety: return false if receiver is nil or uninitialized\n\tif s == nil || !s.Initialized {\n\t\treturn false\n\t}\n",
+# a statistics counter written by concurrent readers: C16 (the answers) still holds, C11 (no data races) does not
+mut("C11", "c11-benign-racy-counter-in-IgnoreSet-Contains", IS, "func (s *IgnoreSet) Contains(code string, pos token.Pos) bool {\n\t// Nil safety: return false if receiver is nil or uninitialized\n\tif s == nil || !s.Initialized {\n\t\treturn false\n\t}\n",
     "func (s *IgnoreSet) Contains(code string, pos token.Pos) bool {\n\t// Nil safety: return false if receiver is nil or uninitialized\n\tif s == nil || !s.Initialized {\n\t\treturn false\n\t}\n\ts.lookups++\n")
-mut("C16", "c16-lazy-stat-write-in-contains-race", IS, "\tmoduleIgnores []string\n", "\tmoduleIgnores []string\n\tlookups       int\n")
+mut("C11", "c11-benign-racy-counter-in-IgnoreSet-Contains", IS, "\tmoduleIgnores []string\n", "\tmoduleIgnores []string\n\tlookups       int\n")
 
 # ---- C19 ---------------------------------------------------------------
 RP = "src/reporting/reporter.go"
